@@ -57,7 +57,7 @@ func main() {
 			ids = append(ids, id)
 		}
 	}
-	P, err := LoadRepo(*repo, nil, "")
+	P, err := LoadRepo(*repo, nil, os.Getenv("HAQQCHECK_TAGS"))
 	if err != nil {
 		fmt.Println("ANALYSER-FAILURE:", err)
 		os.Exit(2)
